@@ -435,6 +435,73 @@ func replayFile(path string) int {
 	return 2
 }
 
+func init() {
+	// a fault plan of engine G3 (C06, and C15's I/O failure family): re-run the workload under the recorded fault
+	replayers["G3"] = func(raw []byte) int {
+		var r struct {
+			Property string     `json:"property"`
+			Workload *int       `json:"workload"`
+			Fault    *faultSpec `json:"fault"`
+		}
+		json.Unmarshal(raw, &r)
+		if r.Workload == nil || r.Fault == nil || *r.Workload < 0 || *r.Workload >= len(c06Workloads()) {
+			fmt.Fprintln(os.Stderr, "this replay file does not describe a fault plan (crash images are re-executed by running the check)")
+			return 2
+		}
+		res := c06Res{Outcomes: map[string]int{}}
+		c06One(c06Workloads()[*r.Workload], *r.Fault, &res)
+		rc := 0
+		for _, v := range append(res.Viols, res.Viols15...) {
+			if v.Prop == r.Property || r.Property == "" {
+				fmt.Printf("VIOLATION property=%s replay=%s\n  %s\n", v.Prop, os.Args[2], v.Msg)
+				rc = 1
+			}
+		}
+		if rc == 0 {
+			fmt.Println("no violation on replay; outcomes:", res.Outcomes, res.Infra)
+		}
+		return rc
+	}
+	// one schedule of engine G2 (C03, C16)
+	replayers["G2"] = func(raw []byte) int {
+		var r struct {
+			Property string `json:"property"`
+			Tier     string `json:"tier"`
+			Program  int    `json:"program"`
+			Desc     bool   `json:"desc"`
+			Schedule []int  `json:"schedule"`
+		}
+		json.Unmarshal(raw, &r)
+		mk, ok := g2Programs[r.Property]
+		if !ok || r.Schedule == nil {
+			fmt.Fprintln(os.Stderr, "this replay file does not describe a schedule of a G2 program")
+			return 2
+		}
+		progs := mk(r.Tier)
+		if r.Program < 0 || r.Program >= len(progs) {
+			fmt.Fprintln(os.Stderr, "program not part of the check any more")
+			return 2
+		}
+		x := g2Execute(progs[r.Program], r.Schedule, r.Desc, true)
+		for _, l := range x.trace {
+			fmt.Println("  ", l)
+		}
+		if x.infra != "" {
+			fmt.Fprintln(os.Stderr, "infrastructure:", x.infra)
+			return 2
+		}
+		rc := 0
+		for _, v := range x.viols {
+			fmt.Printf("VIOLATION property=%s replay=%s\n  %s\n", r.Property, os.Args[2], v.Msg)
+			rc = 1
+		}
+		if rc == 0 {
+			fmt.Println("no violation on replay; outcome:", x.outcome)
+		}
+		return rc
+	}
+}
+
 var replayers = map[string]func(raw []byte) int{
 	"G1": func(raw []byte) int {
 		var r struct {
